@@ -10,14 +10,33 @@ of RNG effects of its body *for a call with a concrete seed* (branch `seed is no
     callUnseeded f    call of another function of the table without a seed (it runs with seed=None)
 
 Loops and branches are flattened: one effect per call *site*, in source order.  Calls of package functions
-that have no `seed` parameter (private helpers, `geometric`, methods resolved by name) are inlined.
+that have no `seed` parameter (private helpers, `geometric`, methods resolved by name) are inlined; nested
+`def`s / named lambdas are walked where they are called or referenced.
 A seeding call counts only when it is unconditional or directly under `if seed is not None:`; a seeding
 call anywhere else (under `if seed:`, in a loop, in an except clause) is ignored - later draws then fail the
-discipline.  Anything random-looking that the tables below do not classify is emitted as `draw unknown`,
-never dropped.
+discipline.
 
-TRUSTED: this file.  What it trusts in turn is the classification of library calls below (kept explicit).
-Its output is cross-checked dynamically by harness/props/c17.py (wrapped RNG entry points, RNG state diffs).
+NO CALL IS DROPPED SILENTLY.  Inside the body of a seeded function (and of everything inlined into it) every
+call is resolved - through imports AND through local aliases (`layout = nx.spring_layout`, `r = random`,
+`rnd = random.random`): a call through an alias is treated exactly like the direct spelling - and then
+classified by the explicit tables below.  A call whose callee cannot be resolved (`getattr(x, n)(...)`,
+`table[k](...)`, a parameter / local variable holding a callable, a name that is neither imported nor a
+package function/class nor a builtin, a method whose name neither belongs to a package class nor stands on
+the whitelist of deterministic methods, a function of a module that no table classifies) is emitted as
+`draw unknown` - and so is a bare *reference* to an RNG function that escapes (`map(random.random, ...)`,
+`{"spring": nx.spring_layout}`).  `draw unknown` fails the discipline, so `C17_table` fails for that function
+and the dynamic run has to produce the witness.
+
+A seed that travels in a dict is followed: `kwargs.setdefault("seed", seed)` (own `**kwargs` only),
+`kwargs["seed"] = seed`, `kwargs.update(seed=seed)`, `dict(kwargs, seed=seed)`, `{**kwargs, "seed": seed}`
+make `f(..., **kwargs)` a call with `seed=<derived>`.
+
+The list `introspected` of the generated file does NOT come from the AST: it is obtained by importing the
+package from the same tree and asking `inspect.signature` (see `introspect_public`).
+
+TRUSTED: this file.  What it trusts in turn is the classification of library calls below (kept explicit, in
+one place).  Its output is cross-checked dynamically by harness/props/c17.py (wrapped RNG entry points, RNG
+state diffs).
 """
 import ast
 import os
@@ -82,10 +101,69 @@ LIB = {
     "scipy.sparse.linalg.eigs": (("v0", "rng"), "osEntropy"),
     "scipy.sparse.linalg.svds": (("v0", "rng", "random_state"), "osEntropy"),
 }
-LIB_PREFIXES = ("networkx.", "scipy.", "sklearn.")      # other calls into these: see `lib_call`
+LIB_PREFIXES = ("networkx.", "scipy.", "sklearn.")      # other calls into these: see `lib_call` (judged by their
+#                                                         signature: a seed-like parameter means "draws")
 SEEDISH_KW = ("seed", "rng", "random_state")
 RNGISH_NAMES = {"rng", "prng", "random_state", "rs", "generator", "rand_gen"}   # `rng.x()` on an untracked object
 PURE_BUILTINS = {"int", "abs", "float", "str", "len", "tuple", "hash", "bool"}
+
+# --- what may be called without an effect -----------------------------------------------------------------
+# Library namespaces whose functions are deterministic functions of their arguments (prefix match on the resolved
+# dotted name).  numpy.random.* never gets here (classified above); networkx / scipy / sklearn are judged by
+# signature (`lib_call`).  A resolved call into any module that is in none of the tables is `draw unknown`.
+PURE_NAMESPACES = ("numpy.", "math.", "cmath.", "itertools.", "collections.", "operator.", "functools.", "copy.",
+                   "warnings.", "string.", "re.", "json.", "numbers.", "fractions.", "decimal.", "heapq.", "bisect.",
+                   "typing.", "abc.", "enum.", "dataclasses.", "contextlib.", "textwrap.")
+# builtins that are deterministic functions of their arguments (or plain constructors / I/O free of randomness).
+# NOT here, hence `draw unknown` when called: eval, exec, compile, __import__, globals, locals, vars, input, open,
+# breakpoint, and anything this list does not name.  `getattr(x, n)` itself is harmless - *calling its result* is an
+# unresolved call.  Builtin exception classes are accepted as constructors (see `_is_det_builtin`).
+DET_BUILTINS = {
+    "abs", "all", "any", "ascii", "bin", "bool", "bytearray", "bytes", "callable", "chr", "complex", "dict", "dir",
+    "divmod", "enumerate", "filter", "float", "format", "frozenset", "getattr", "hasattr", "hash", "hex", "int",
+    "isinstance", "issubclass", "iter", "len", "list", "map", "max", "min", "next", "object", "oct", "ord", "pow",
+    "print", "property", "range", "repr", "reversed", "round", "set", "setattr", "delattr", "slice", "sorted", "str",
+    "sum", "super", "tuple", "type", "zip", "id", "staticmethod", "classmethod", "memoryview",
+}
+# Method names accepted as deterministic when the receiver's type is unknown AND no class of the package defines a
+# method of that name.  Grouped by the type they belong to.  Names that also name an RNG operation
+# (`choice`, `sample`, `shuffle`, `random`, `uniform`, `integers`, ...) must never be listed here.
+DET_METHODS = set().union(
+    # list / tuple / deque
+    {"append", "extend", "insert", "remove", "pop", "clear", "index", "count", "sort", "reverse", "copy", "popleft",
+     "appendleft"},
+    # dict / defaultdict / Counter
+    {"keys", "values", "items", "get", "setdefault", "update", "popitem", "fromkeys", "most_common", "elements"},
+    # set / frozenset
+    {"add", "discard", "union", "intersection", "difference", "symmetric_difference", "issubset", "issuperset",
+     "isdisjoint", "intersection_update", "difference_update", "symmetric_difference_update"},
+    # str / bytes
+    {"join", "split", "rsplit", "strip", "lstrip", "rstrip", "format", "startswith", "endswith", "lower", "upper",
+     "replace", "encode", "decode", "isdigit", "isnumeric", "title", "capitalize", "zfill", "splitlines", "find"},
+    # numbers
+    {"is_integer", "bit_length", "conjugate"},
+    # numpy.ndarray / numpy.matrix
+    {"astype", "reshape", "ravel", "flatten", "tolist", "item", "sum", "mean", "std", "var", "min", "max", "argmin",
+     "argmax", "argsort", "cumsum", "cumprod", "prod", "dot", "transpose", "squeeze", "nonzero", "any", "all", "fill",
+     "round", "clip", "repeat", "take", "trace", "diagonal", "view", "tobytes", "searchsorted", "swapaxes", "getA",
+     "getA1"},
+    # scipy.sparse matrices / arrays
+    {"tocsr", "tocsc", "tocoo", "tolil", "todok", "tobsr", "todia", "toarray", "todense", "asformat", "multiply",
+     "power", "setdiag", "eliminate_zeros", "sum_duplicates", "getnnz", "count_nonzero", "get_shape", "getrow",
+     "getcol", "asfptype", "maximum", "minimum"},
+    # networkx.Graph accessors / mutators (receivers built by nx.Graph(), to_graph, ... inside the package)
+    {"add_node", "add_nodes_from", "add_edge", "add_edges_from", "add_weighted_edges_from", "remove_node",
+     "remove_nodes_from", "remove_edge", "remove_edges_from", "number_of_nodes", "number_of_edges", "neighbors",
+     "has_node", "has_edge", "subgraph", "edge_subgraph", "to_undirected", "to_directed", "is_directed",
+     "is_multigraph", "nodes", "edges", "degree", "adjacency", "nbunch_iter", "order", "size", "get_edge_data"},
+    # pandas.DataFrame iteration (the converters of the package read frames row by row)
+    {"itertuples", "iterrows"},
+)
+# method names that consume randomness on every known generator type: on a receiver of unknown type they are
+# `draw unknown` even if a class of the package happens to define a method of the same name
+RNG_METHOD_NAMES = (PY_DRAWS | NP_DRAWS | {"seed", "integers", "standard_normal", "spawn", "bit_generator", "jumped",
+                                           "random_raw", "setstate", "set_state"}) - {"f", "power", "bytes"}
+assert not (DET_METHODS & RNG_METHOD_NAMES), sorted(DET_METHODS & RNG_METHOD_NAMES)
 NETWORKX_ALIASES = {"networkx.drawing.layout.": "networkx.", "networkx.generators.random_graphs.": "networkx.",
                     "networkx.drawing.": "networkx.", "scipy.sparse.linalg._eigen.arpack.": "scipy.sparse.linalg.",
                     "scipy.sparse.linalg.eigen.": "scipy.sparse.linalg."}
@@ -104,11 +182,22 @@ class Fn:
         self.qual = f"{mod.name}.{cls + '.' if cls else ''}{node.name}"
         self.key = None       # name in the table
         self.none_branch = False   # effects under `if seed is None:` (not modelled; callers get `draw unknown`)
+        decos = {d.id for d in node.decorator_list if isinstance(d, ast.Name)}
+        self.is_classmethod = cls is not None and "classmethod" in decos
+        self.is_static = cls is not None and "staticmethod" in decos
 
     @property
     def public(self):
         parts = self.mod.name.split(".") + ([self.cls] if self.cls else []) + [self.name]
         return not any(p.startswith("_") for p in parts)
+
+    def defaults(self):
+        """parameter -> default expression"""
+        a = self.node.args
+        pos = a.posonlyargs + a.args
+        out = {p.arg: d for p, d in zip(pos[len(pos) - len(a.defaults):], a.defaults)}
+        out.update({p.arg: d for p, d in zip(a.kwonlyargs, a.kw_defaults) if d is not None})
+        return out
 
 
 class Mod:
@@ -118,6 +207,7 @@ class Mod:
         self.tree = ast.parse(self.src, filename=path)
         self.alias = {}
         self.funcs, self.classes = {}, {}
+        self.assigned = {}     # module-level `name = <Name / Attribute chain>` (an alias of a function or module)
 
     def package(self):
         return self.name if self.is_pkg else self.name.rsplit(".", 1)[0]
@@ -145,14 +235,61 @@ def _collect_imports(mod, body):
                     mod.alias[a.asname or a.name] = f"{base}.{a.name}" if base else a.name
 
 
+def _norm_dotted(d):
+    for k, v in NETWORKX_ALIASES.items():
+        if d.startswith(k):
+            d = v + d[len(k):]
+    return d
+
+
+def _chain(e):
+    """(head expression, [attr, ...] outermost last) of an attribute chain"""
+    parts = []
+    while isinstance(e, ast.Attribute):
+        parts.append(e.attr)
+        e = e.value
+    return e, parts[::-1]
+
+
+def _is_name_chain(e):
+    return isinstance(_chain(e)[0], ast.Name)
+
+
+def _is_det_builtin(name):
+    import builtins
+    if name in DET_BUILTINS:
+        return True
+    o = getattr(builtins, name, None)
+    return isinstance(o, type) and issubclass(o, BaseException)
+
+
+# What a callee expression may stand for ("target"; hashable, meaningful in every module):
+#   ("dotted", d)        resolves through the imports to the dotted name d (a module, or a function/class of a module)
+#   ("pkgfn", qual)      a module-level function of the package
+#   ("pkgclass", name)   a class of the package (calling it runs its __init__);  ("pkgclassfam", name): it or a subclass
+#   ("builtin", name)    a builtin on DET_BUILTINS / an exception class
+#   ("localfn", name)    a nested def / named lambda of the function being walked
+#   ("const",)           a constant (None, a string, a number): never called on a path that returns
+#   ("walked",)          a lambda whose body has been accounted for where it was written
+#   ("method", attr)     attribute `attr` of a value of unknown type
+#   ("param", p)         parameter p of the function being walked: what it stands for is decided where the function is
+#                        inlined (the caller's argument, else the default); for a function of the table itself it is a
+#                        callable supplied by the user -> `draw unknown`
+#   ("pkginstance", K)   an instance of package class K (`self`): calling it runs K.__call__ if there is one
+#   ("opaque", why)      anything else: calling it is an unresolved call -> `draw unknown`
+OPAQUE = ("opaque", "")
+
+
 class Translator:
     def __init__(self, repo=None):
         self.repo = repo or os.environ.get("XGI_REPO", "/repo")
         self.root = os.path.join(self.repo, PKG)
         self.mods = {}
         self.by_name = {}      # bare function name -> [Fn]
+        self.by_qual = {}      # qualified name -> Fn (module-level functions)
         self.methods = {}      # method name -> [Fn]
         self.classes = {}      # class name -> [(mod, ClassDef)]
+        self.class_attrs = {}  # class-level attribute name -> [targets] (`_node_dict_factory = IDDict`)
         self.notes = []
         self.memo = {}
         self._load()
@@ -161,6 +298,7 @@ class Translator:
     def _load(self):
         if not os.path.isdir(self.root):
             raise FileNotFoundError(self.root)
+        pending = []
         for dp, dn, fn in sorted(os.walk(self.root)):
             dn[:] = sorted(d for d in dn if d not in ("__pycache__",))
             for f in sorted(fn):
@@ -180,12 +318,24 @@ class Translator:
                         fnn = Fn(m, n)
                         m.funcs[n.name] = fnn
                         self.by_name.setdefault(n.name, []).append(fnn)
+                        self.by_qual[fnn.qual] = fnn
+                    elif isinstance(n, ast.Assign) and len(n.targets) == 1 and isinstance(n.targets[0], ast.Name) \
+                            and isinstance(n.value, (ast.Name, ast.Attribute)) and _is_name_chain(n.value):
+                        m.assigned[n.targets[0].id] = n.value if n.targets[0].id not in m.assigned else None   # reassigned: unknown
                     elif isinstance(n, ast.ClassDef):
                         m.classes[n.name] = n
                         self.classes.setdefault(n.name, []).append((m, n))
                         for c in n.body:
                             if isinstance(c, (ast.FunctionDef, ast.AsyncFunctionDef)):
                                 self.methods.setdefault(c.name, []).append(Fn(m, c, cls=n.name))
+                            elif isinstance(c, (ast.Assign, ast.AnnAssign)) and c.value is not None:
+                                for t in (c.targets if isinstance(c, ast.Assign) else [c.target]):
+                                    if isinstance(t, ast.Name):
+                                        pending.append((t.id, m, c.value))
+        for name, m, val in pending:           # needs the complete class / function index
+            for t in self.module_targets(m, val):
+                if t not in self.class_attrs.setdefault(name, []):
+                    self.class_attrs[name].append(t)
         seeded = [f for fs in self.by_name.values() for f in fs if f.has_seed]
         seeded += [f for fs in self.methods.values() for f in fs if f.has_seed]
         names = {}
@@ -197,47 +347,60 @@ class Translator:
         self.seeded = sorted(seeded, key=lambda f: (f.mod.rel, f.node.lineno))
 
     # ---- name resolution
-    def dotted(self, mod, e):
-        """resolve a Name/Attribute chain through the module's imports to a dotted path (or None)"""
-        parts = []
-        while isinstance(e, ast.Attribute):
-            parts.append(e.attr)
-            e = e.value
-        if not isinstance(e, ast.Name):
-            return None
-        head = mod.alias.get(e.id)
-        if head is None:
-            return None
-        d = ".".join([head] + parts[::-1])
-        for k, v in NETWORKX_ALIASES.items():
-            if d.startswith(k):
-                d = v + d[len(k):]
-        return d
+    def module_targets(self, mod, e, depth=0):
+        """targets of an expression in the namespace of a module (no local variables)"""
+        if isinstance(e, ast.Constant):
+            return [("const",)]
+        if not isinstance(e, (ast.Name, ast.Attribute)):
+            return [OPAQUE]
+        head, parts = _chain(e)
+        if not isinstance(head, ast.Name):
+            return [("method", parts[-1])]
+        n = head.id
+        if mod.assigned.get(n) is not None and n not in mod.funcs and n not in mod.classes and depth < 5:
+            out = []                     # module-level alias: `chaini = chain.from_iterable`
+            for t in self.module_targets(mod, mod.assigned[n], depth + 1):
+                if parts:
+                    t = ("dotted", _norm_dotted(t[1] + "." + ".".join(parts))) if t[0] == "dotted" else ("method", parts[-1])
+                out.append(t)
+            return out
+        if n in mod.alias:
+            return [("dotted", _norm_dotted(".".join([mod.alias[n]] + parts)))]
+        if parts:
+            return [("method", parts[-1])]
+        if n in mod.funcs:
+            return [("pkgfn", mod.funcs[n].qual)]
+        if n in mod.classes or n in self.classes:
+            return [("pkgclass", n)]
+        if _is_det_builtin(n):
+            return [("builtin", n)]
+        return [("opaque", f"`{n}` is neither imported, nor a function/class of the package, nor a builtin known to be deterministic")]
 
-    def pkg_funcs(self, mod, call):
-        """package functions a call may refer to (by bare name; same module first, then the imported module)"""
-        f = call.func
-        if isinstance(f, ast.Name):
-            if f.id in mod.funcs:
-                return [mod.funcs[f.id]]
-            d = mod.alias.get(f.id)
-            if d is None or not (d == PKG or d.startswith(PKG + ".")):
-                return []
-            name = d.rsplit(".", 1)[1]
-            prefix = d.rsplit(".", 1)[0]
-        elif isinstance(f, ast.Attribute):
-            d = self.dotted(mod, f)
-            if d is None or not d.startswith(PKG + "."):
-                return []
-            name, prefix = f.attr, d.rsplit(".", 1)[0]
-        else:
+    def pkg_funcs_dotted(self, d):
+        """module-level package functions a dotted name inside the package may refer to"""
+        if "." not in d:
             return []
+        prefix, name = d.rsplit(".", 1)
         cands = self.by_name.get(name, [])
         best = [c for c in cands if c.mod.name == prefix or c.mod.name.startswith(prefix + ".")]
         return best or cands
 
+    def family(self, name):
+        """a package class and the package classes derived from it (by the bare names of their bases)"""
+        fam, grew = {name}, True
+        while grew:
+            grew = False
+            for k, defs in self.classes.items():
+                if k not in fam and any(isinstance(b, (ast.Name, ast.Attribute)) and (_chain(b)[1] or [_chain(b)[0].id])[-1] in fam
+                                        for _, cd in defs for b in cd.bases if isinstance(_chain(b)[0], ast.Name)):
+                    fam.add(k)
+                    grew = True
+        return sorted(fam)
+
     # ---- effects
     def effects(self, fn, derived_params, ctx, stack):
+        """effect list of one function body.  Calls of the function's own parameters appear as placeholders
+        ("callparam", p, where) that the inlining caller resolves (`_Walker.pkg_call`)"""
         key = (fn.qual, frozenset(derived_params), ctx)
         if key in self.memo:
             return self.memo[key]
@@ -248,10 +411,18 @@ class Translator:
         self.memo[key] = w.effs
         return w.effs
 
+    def lambda_effects(self, fn, lam, stack):
+        """effects of calling a lambda that is the default value of a parameter of `fn`"""
+        w = _Walker(self, fn, set(), stack + (fn.qual,))
+        w.expr(lam.body, "other")
+        return w.effs
+
     def table(self):
         out = []
         for f in self.seeded:
-            effs = self.effects(f, {"seed"}, "top", ())
+            effs = [x if x[0] != "callparam" else
+                    ("draw", "unknown", f"{x[-1]}  (parameter `{x[1]}` is called: a callable supplied by the caller)")
+                    for x in self.effects(f, {"seed"}, "top", ())]
             out.append(dict(key=f.key, qual=f.qual, file=f.mod.rel, line=f.node.lineno, public=f.public and not f.cls,
                             effs=effs, none_branch=f.none_branch))
         # calls of functions whose `seed is None` branch has effects of its own are not modelled: be conservative
@@ -288,7 +459,7 @@ def _is_none(e):
 
 class _Walker:
     """ordered walk of one function body.  ctx: 'top' (unconditional), 'seedcond' (directly under
-    `if seed is not None:`), 'other' (any other branch / loop / handler)"""
+    `if seed is not None:`), 'other' (any other branch / loop / handler)."""
 
     def __init__(self, tr, fn, derived, stack):
         self.tr, self.fn, self.mod = tr, fn, fn.mod
@@ -298,6 +469,27 @@ class _Walker:
         self.effs = []
         self.stack = stack
         self.sink = self.effs
+        a = fn.node.args
+        self.kwparam = a.kwarg.arg if a.kwarg else None
+        # local names.  `opaque`: holds a value the translator knows nothing about (results of calls, loop variables,
+        # arguments supplied by the user ...): it shadows a module-level import of the same name, and calling it is an
+        # unresolved call.  `alias`: name -> targets it may stand for (`layout = nx.spring_layout`, a parameter of an
+        # inlined helper bound by its caller); several when the assignments stand in different branches.
+        self.opaque = set()
+        self.alias = {}
+        self.local_funcs = {}          # nested def / named lambda -> node; walked where called or referenced
+        self.local_seen = set()        # ... those walked at least once
+        self.walking = []              # recursion guard for local functions
+        # dicts known to carry seed-like keys: name -> {key: value expression}  (see `dict_store`)
+        self.seed_dicts = {}
+        self.fresh_dicts = set()       # local dicts created empty / from literals (setdefault on them is an insert)
+        allp = [x.arg for x in a.posonlyargs + a.args + a.kwonlyargs]
+        self.opaque |= {x.arg for x in (a.vararg, a.kwarg) if x is not None}
+        for i, p in enumerate(allp):
+            if i == 0 and fn.cls and not fn.is_static and not fn.is_classmethod and p == "self":
+                self.alias[p] = [("pkginstance", fn.cls)]
+            else:
+                self.alias[p] = [("param", p)]
 
     def where(self, n):
         return f"{self.mod.rel}:{getattr(n, 'lineno', 0)}"
@@ -311,21 +503,86 @@ class _Walker:
         self.sink.append((kind, arg, f"{self.where(node)}: {txt[:90]}") if extra is None else
                          (kind, arg, extra, f"{self.where(node)}: {txt[:90]}"))
 
+    def unknown(self, node, why):
+        """an unresolved call / escaping RNG reference: never dropped"""
+        self.emit("draw", "unknown", node)
+        try:
+            txt = " ".join(ast.unparse(node).split())[:70]
+        except Exception:  # noqa
+            txt = "?"
+        self.tr.notes.append(f"{self.where(node)}: `{txt}` -> draw unknown: {why}")
+
     def run(self, ctx):
-        body = self.fn.node.body
-        self.stmts(body, ctx)
+        self.stmts(self.fn.node.body, ctx)
+        # nested functions that were never called nor referenced by name: dead today, but listed (conservatively)
+        for name in list(self.local_funcs):
+            if name not in self.local_seen and not name.startswith("<default of "):
+                self.walk_local(name, "other")
+
+    # ---- name resolution (imports + local aliases + shadowing)
+    def targets_of(self, e):
+        """what a Name / Attribute chain may stand for, local aliases and shadowing included"""
+        if isinstance(e, ast.Constant):
+            return [("const",)]
+        if not isinstance(e, (ast.Name, ast.Attribute)):
+            return [("opaque", "the value of an expression (getattr / subscript / call result)")]
+        head, parts = _chain(e)
+        if not isinstance(head, ast.Name):
+            return [("method", parts[-1])]
+        n = head.id
+        if n in self.alias or n in self.opaque or n in self.local_funcs:
+            base = list(self.alias.get(n, []))
+            if n in self.local_funcs and n not in self.alias:
+                base.append(("localfn", n))
+            if n in self.opaque:
+                base.append(("opaque", f"`{n}` is a parameter / local variable: what it holds is not known"
+                             if not self.alias.get(n) else f"`{n}` may also hold a value that is not followed"))
+        else:
+            return self.tr.module_targets(self.mod, e)
+        if not parts:
+            return base
+        out = []
+        for t in base:
+            t2 = ("dotted", _norm_dotted(t[1] + "." + ".".join(parts))) if t[0] == "dotted" else ("method", parts[-1])
+            if t2 not in out:
+                out.append(t2)
+        return out
 
     # ---- statements
     def stmts(self, body, ctx):
         for s in body:
             self.stmt(s, ctx)
 
+    def forget(self, name):
+        self.alias.pop(name, None)
+        self.seed_dicts.pop(name, None)
+        self.fresh_dicts.discard(name)
+
+    def bind_opaque(self, target):
+        for n in ast.walk(target):
+            if isinstance(n, ast.Name):
+                self.opaque.add(n.id)
+                self.forget(n.id)
+
     def stmt(self, s, ctx):
         other = "other"
-        if isinstance(s, (ast.FunctionDef, ast.AsyncFunctionDef, ast.ClassDef)):
-            for d in getattr(s, "decorator_list", []):
+        if isinstance(s, (ast.FunctionDef, ast.AsyncFunctionDef)):
+            for d in s.decorator_list:
+                self.expr(d, ctx)
+            for d in list(s.args.defaults) + [x for x in s.args.kw_defaults if x is not None]:
+                self.expr(d, ctx)
+            # the body runs when the function is called, not where it is defined: see `walk_local`
+            self.local_funcs[s.name] = s
+            self.local_seen.discard(s.name)
+            self.opaque.discard(s.name)
+            self.forget(s.name)
+            if s.decorator_list:
+                self.walk_local(s.name, other)       # a decorator may call it right away
+        elif isinstance(s, ast.ClassDef):
+            for d in s.decorator_list:
                 self.expr(d, ctx)
             self.stmts(s.body, other)
+            self.opaque.add(s.name)
         elif isinstance(s, ast.If):
             k = _is_seed_test(s.test, self.seedp)
             inner = "seedcond" if ctx in ("top", "seedcond") else other
@@ -341,6 +598,7 @@ class _Walker:
                 self.stmts(s.orelse, other)
         elif isinstance(s, (ast.For, ast.AsyncFor)):
             self.expr(s.iter, ctx)
+            self.bind_opaque(s.target)
             self.stmts(s.body, other)
             self.stmts(s.orelse, other)
         elif isinstance(s, ast.While):
@@ -350,37 +608,216 @@ class _Walker:
         elif isinstance(s, (ast.With, ast.AsyncWith)):
             for it in s.items:
                 self.expr(it.context_expr, ctx)
+                if it.optional_vars is not None:
+                    self.bind_opaque(it.optional_vars)
             self.stmts(s.body, ctx)
         elif isinstance(s, ast.Try) or s.__class__.__name__ == "TryStar":
             self.stmts(s.body, ctx)
             for h in s.handlers:
+                if h.name:
+                    self.opaque.add(h.name)
                 self.stmts(h.body, other)
             self.stmts(s.orelse, other)
             self.stmts(s.finalbody, other)
         elif isinstance(s, ast.Match):
             self.expr(s.subject, ctx)
             for c in s.cases:
+                for n in ast.walk(c.pattern):
+                    for nm in (getattr(n, "name", None), getattr(n, "rest", None)):
+                        if isinstance(nm, str):
+                            self.opaque.add(nm)
                 self.stmts(c.body, other)
         elif isinstance(s, (ast.Assign, ast.AnnAssign, ast.AugAssign)):
-            val = s.value
-            if val is not None:
-                self.expr(val, ctx)
-                targets = s.targets if isinstance(s, ast.Assign) else [s.target]
-                names = [n.id for t in targets for n in ast.walk(t) if isinstance(n, ast.Name)]
-                src = self.ctor_kind(val) if isinstance(val, ast.Call) else None
-                if src is None and isinstance(val, ast.Name) and val.id in self.gens:
-                    src = self.gens[val.id]
-                for nm in names:
-                    if src is not None:
-                        self.gens[nm] = src
-                    if _mentions(val, self.derived):
-                        self.derived.add(nm)
+            self.assign(s, ctx)
+        elif isinstance(s, ast.Delete):
+            for t in s.targets:
+                if isinstance(t, ast.Subscript) and isinstance(t.value, ast.Name):
+                    key = t.slice.value if isinstance(t.slice, ast.Constant) else None
+                    if key is None:
+                        self.seed_dicts.pop(t.value.id, None)
+                    else:
+                        self.seed_dicts.get(t.value.id, {}).pop(key, None)
+                self.expr(t, ctx)
         else:
             for c in ast.iter_child_nodes(s):
                 if isinstance(c, ast.expr):
                     self.expr(c, ctx)
                 elif isinstance(c, ast.stmt):
                     self.stmt(c, other)
+
+    def assign(self, s, ctx):
+        val = s.value
+        if val is None:
+            return
+        targets = s.targets if isinstance(s, ast.Assign) else [s.target]
+        single = targets[0].id if (isinstance(s, (ast.Assign, ast.AnnAssign)) and len(targets) == 1
+                                   and isinstance(targets[0], ast.Name)) else None
+        # `d["seed"] = seed`
+        if isinstance(s, ast.Assign) and len(targets) == 1 and isinstance(targets[0], ast.Subscript) \
+                and isinstance(targets[0].value, ast.Name) and isinstance(targets[0].slice, ast.Constant):
+            self.expr(val, ctx)
+            self.dict_store(targets[0].value.id, targets[0].slice.value, val, ctx, overrides=True)
+            return
+        # 1. local alias of a module / function / class:   layout = nx.spring_layout ;  r = random ;  f = helper
+        if single is not None and isinstance(val, (ast.Name, ast.Attribute)) and _is_name_chain(val) \
+                and not (isinstance(val, ast.Name) and val.id in self.gens):
+            ts = self.targets_of(val)
+            if ts and all(t[0] in ("dotted", "pkgfn", "pkgclass", "pkgclassfam", "builtin", "localfn", "param", "pkginstance",
+                                   "const", "walked") for t in ts):
+                old = [] if ctx == "top" else list(self.alias.get(single, []))
+                self.alias[single] = old + [t for t in ts if t not in old]
+                if ctx == "top":
+                    self.opaque.discard(single)
+                    self.local_funcs.pop(single, None)
+                self.seed_dicts.pop(single, None)
+                self.fresh_dicts.discard(single)
+                self.gens.pop(single, None)
+                if _mentions(val, self.derived):          # `s = seed`
+                    self.derived.add(single)
+                elif single in self.derived:
+                    self.derived.discard(single)
+                    self.seedp.discard(single)
+                return
+        # 2. named lambda: like a nested def
+        if single is not None and isinstance(val, ast.Lambda):
+            for d in list(val.args.defaults) + [x for x in val.args.kw_defaults if x is not None]:
+                self.expr(d, ctx)
+            self.local_funcs[single] = val
+            self.local_seen.discard(single)
+            self.opaque.discard(single)
+            self.forget(single)
+            return
+        # 3. anything else: evaluate, then the targets hold values the translator does not follow
+        self.expr(val, ctx)
+        names = [n.id for t in targets for n in ast.walk(t) if isinstance(n, ast.Name) and isinstance(n.ctx, ast.Store)]
+        src = self.ctor_kind(val) if isinstance(val, ast.Call) else None
+        if src is None and isinstance(val, ast.Name) and val.id in self.gens:
+            src = self.gens[val.id]
+        carried = self.dict_value(val, ctx) if single is not None else None
+        for nm in names:
+            if ctx == "top" and not isinstance(s, ast.AugAssign):
+                self.alias.pop(nm, None)
+                self.local_funcs.pop(nm, None)
+            self.opaque.add(nm)
+            self.seed_dicts.pop(nm, None)
+            self.fresh_dicts.discard(nm)
+            if src is not None:
+                self.gens[nm] = src
+            if _mentions(val, self.derived):
+                self.derived.add(nm)
+            elif nm in self.derived and not isinstance(s, ast.AugAssign):
+                # `seed = None`, `seed = time.time()` ...: from here on the name no longer stands for the caller's seed
+                # (also when the assignment is conditional: conservative)
+                self.derived.discard(nm)
+                self.seedp.discard(nm)
+        if carried is not None:
+            keys, fresh = carried
+            if keys:
+                self.seed_dicts[single] = keys
+            if fresh:
+                self.fresh_dicts.add(single)
+
+    # ---- a seed travelling in a dict
+    def dict_store(self, name, key, val, ctx, overrides):
+        """`name[key] = val` (overrides=True) or `name.setdefault(key, val)`.
+        `setdefault` does not replace a key that is already there.  It still sets the value when the dict is the
+        function's own `**kwargs` and the key is a named parameter of the function (Python binds a keyword that matches
+        a named parameter to that parameter, so the `kwargs` of a function with a parameter `seed` can never contain
+        "seed"), or when the dict was created in this body without that key."""
+        if key not in SEEDISH_KW:
+            return
+        cur = self.seed_dicts.get(name, {})
+        if not overrides:
+            own = name == self.kwparam and key in (self.fn.params + self.fn.kwonly)
+            if key in cur or not (own or name in self.fresh_dicts):
+                return
+        if ctx in ("top", "seedcond") and not _is_none(val) and (_mentions(val, self.derived) or isinstance(val, ast.Constant)):
+            self.seed_dicts.setdefault(name, {})[key] = val
+        else:
+            cur.pop(key, None)          # conditional / underived store: no longer known to carry the seed
+
+    def dict_value(self, val, ctx):
+        """(seed-like keys carried, created-here?) when `val` builds a dict: {...}, {**d, k: v}, dict(d, k=v), dict(k=v),
+        d.copy(); None otherwise"""
+        keys, fresh = {}, False
+        ok = ctx in ("top", "seedcond")
+
+        def good(v):
+            return ok and not _is_none(v) and (_mentions(v, self.derived) or isinstance(v, ast.Constant))
+        if isinstance(val, ast.Dict):
+            fresh = all(k is not None for k in val.keys)
+            for k, v in zip(val.keys, val.values):
+                if k is None:
+                    if isinstance(v, ast.Name):
+                        keys.update(self.seed_dicts.get(v.id, {}))
+                elif isinstance(k, ast.Constant) and k.value in SEEDISH_KW:
+                    if good(v):
+                        keys[k.value] = v
+                    else:
+                        keys.pop(k.value, None)
+            return keys, fresh
+        if isinstance(val, ast.Call) and isinstance(val.func, ast.Name) and val.func.id == "dict" \
+                and self.targets_of(val.func) == [("builtin", "dict")]:
+            fresh = not val.args
+            for a in val.args:
+                if isinstance(a, ast.Name):
+                    keys.update(self.seed_dicts.get(a.id, {}))
+            for k in val.keywords:
+                if k.arg is None:
+                    if isinstance(k.value, ast.Name):
+                        keys.update(self.seed_dicts.get(k.value.id, {}))
+                    fresh = False
+                elif k.arg in SEEDISH_KW:
+                    if good(k.value):
+                        keys[k.arg] = k.value
+                    else:
+                        keys.pop(k.arg, None)
+            return keys, fresh
+        if isinstance(val, ast.Call) and isinstance(val.func, ast.Attribute) and val.func.attr == "copy" \
+                and isinstance(val.func.value, ast.Name) and val.func.value.id in self.seed_dicts and not val.args:
+            return dict(self.seed_dicts[val.func.value.id]), False
+        return None
+
+    def dict_method(self, c, ctx):
+        """`d.setdefault("seed", seed)`, `d.update(seed=seed)`, `d.update({"seed": seed})`, `d.pop("seed")`, `d.clear()`"""
+        f = c.func
+        if not (isinstance(f, ast.Attribute) and isinstance(f.value, ast.Name)):
+            return
+        name = f.value.id
+        if f.attr == "setdefault" and len(c.args) == 2 and isinstance(c.args[0], ast.Constant):
+            self.dict_store(name, c.args[0].value, c.args[1], ctx, overrides=False)
+        elif f.attr == "update":
+            for k in c.keywords:
+                if k.arg is not None:
+                    self.dict_store(name, k.arg, k.value, ctx, overrides=True)
+                else:
+                    self.seed_dicts.pop(name, None)        # update(**something): may overwrite the seed
+            for a in c.args:
+                if isinstance(a, ast.Dict) and all(isinstance(k, ast.Constant) for k in a.keys):
+                    for k, v in zip(a.keys, a.values):
+                        self.dict_store(name, k.value, v, ctx, overrides=True)
+                elif isinstance(a, ast.Name) and a.id in self.seed_dicts and ctx in ("top", "seedcond"):
+                    self.seed_dicts.setdefault(name, {}).update(self.seed_dicts[a.id])
+                else:
+                    self.seed_dicts.pop(name, None)        # update(<unknown mapping>): may overwrite the seed
+        elif f.attr in ("pop", "popitem", "clear", "__delitem__", "__setitem__"):
+            key = c.args[0].value if (f.attr == "pop" and c.args and isinstance(c.args[0], ast.Constant)) else None
+            if key is None:
+                self.seed_dicts.pop(name, None)
+            else:
+                self.seed_dicts.get(name, {}).pop(key, None)
+
+    def star_kwargs(self, c):
+        """seed-like keywords that reach the callee through `**d`"""
+        out = {}
+        for k in c.keywords:
+            if k.arg is None:
+                if isinstance(k.value, ast.Name):
+                    out.update(self.seed_dicts.get(k.value.id, {}))
+                elif isinstance(k.value, ast.Dict):
+                    got = self.dict_value(k.value, "top")
+                    out.update(got[0] if got else {})
+        return out
 
     def none_branch(self, body):
         """statements that run only when seed is None: not part of the seeded effect list"""
@@ -393,13 +830,34 @@ class _Walker:
             self.fn.none_branch = True
             self.tr.notes.append(f"{self.where(body[0])}: {len(found)} RNG effect(s) only when seed is None (not in the table)")
 
+    # ---- nested functions
+    def walk_local(self, name, ctx):
+        node = self.local_funcs.get(name)
+        if node is None:
+            return
+        self.local_seen.add(name)
+        if name in self.walking:
+            return
+        self.walking.append(name)
+        try:
+            a = node.args
+            for x in a.posonlyargs + a.args + a.kwonlyargs + [y for y in (a.vararg, a.kwarg) if y is not None]:
+                if x.arg not in self.derived:
+                    self.opaque.add(x.arg)
+                    self.forget(x.arg)
+            if isinstance(node, ast.Lambda):
+                self.expr(node.body, ctx)
+            else:
+                self.stmts(node.body, ctx)
+        finally:
+            self.walking.pop()
+
     # ---- expressions
     def expr(self, e, ctx):
         if isinstance(e, ast.Call):
-            if isinstance(e.func, ast.Attribute):
-                self.expr(e.func.value, ctx)
-            elif not isinstance(e.func, ast.Name):
-                self.expr(e.func, ctx)
+            head, _ = _chain(e.func)
+            if not isinstance(head, ast.Name):
+                self.expr(head, ctx)         # the receiver / callee is itself computed: look inside it
             for a in e.args:
                 self.expr(a, ctx)
             for k in e.keywords:
@@ -414,10 +872,17 @@ class _Walker:
         elif isinstance(e, (ast.ListComp, ast.SetComp, ast.GeneratorExp, ast.DictComp)):
             for g in e.generators:
                 self.expr(g.iter, ctx)
+                self.bind_opaque(g.target)
                 for c in g.ifs:
                     self.expr(c, "other")
             for part in ([e.key, e.value] if isinstance(e, ast.DictComp) else [e.elt]):
                 self.expr(part, "other")
+        elif isinstance(e, ast.NamedExpr):
+            self.expr(e.value, ctx)
+            self.bind_opaque(e.target)
+        elif isinstance(e, (ast.Name, ast.Attribute)) and _is_name_chain(e):
+            if isinstance(getattr(e, "ctx", None), ast.Load):
+                self.reference(e, ctx)
         else:
             for c in ast.iter_child_nodes(e):
                 if isinstance(c, ast.expr):
@@ -425,9 +890,47 @@ class _Walker:
                 elif isinstance(c, ast.comprehension):
                     self.expr(c.iter, ctx)
 
+    def can_draw(self, t):
+        """a reason when calling target `t` may consume randomness, else None"""
+        if t[0] == "dotted":
+            d = t[1]
+            if d in ("random", "numpy.random") or d in GEN_CTORS or d in ENTROPY_CTORS or d in ENTROPY_CALLS \
+                    or (d.startswith("random.") and d[7:] not in PY_NEUTRAL) \
+                    or (d.startswith("numpy.random.") and d[13:] not in NP_NEUTRAL) \
+                    or (d in LIB and LIB[d][0]):
+                return f"`{d}`"
+            if d == PKG or d.startswith(PKG + "."):
+                for callee in self.tr.pkg_funcs_dotted(d):
+                    if callee.has_seed or self.tr.effects(callee, set(), "other", self.stack):
+                        return f"the package function `{callee.qual}` (which has RNG effects)"
+        elif t[0] == "pkgfn":
+            callee = self.tr.by_qual[t[1]]
+            if callee.has_seed or self.tr.effects(callee, set(), "other", self.stack):
+                return f"the package function `{callee.qual}` (which has RNG effects)"
+        return None
+
+    def reference(self, e, ctx):
+        """a function / module mentioned without being called (passed on, stored in a container, returned): if it can
+        draw, the place where it is eventually called is out of sight -> `draw unknown` here"""
+        for t in self.targets_of(e):
+            if t[0] == "localfn":
+                self.walk_local(t[1], "other")
+                continue
+            why = self.can_draw(t)
+            if why:
+                self.unknown(e, f"reference to {why} escapes (it is not called here)")
+                break
+
     def ctor_kind(self, call):
         """source of the generator object a constructor call creates, None if `call` is not such a constructor"""
-        d = self.tr.dotted(self.mod, call.func)
+        if not isinstance(call.func, (ast.Name, ast.Attribute)):
+            return None
+        kinds = {self._ctor_kind_d(call, t[1]) if t[0] == "dotted" else None for t in self.targets_of(call.func)}
+        if len(kinds) == 1:
+            return kinds.pop()
+        return "unknown" if kinds - {None} else None
+
+    def _ctor_kind_d(self, call, d):
         if d in ENTROPY_CTORS:
             return "osEntropy"
         if d not in GEN_CTORS:
@@ -462,30 +965,99 @@ class _Walker:
         else:
             self.emit("seed", src, call, extra=(ctx == "seedcond"))
 
+    # ---- calls
     def call(self, c, ctx):
+        """classify one call site.  The callee is resolved through imports and local aliases to its targets; every target
+        is applied (a name assigned in two branches stands for both)."""
+        self.dict_method(c, ctx)
         f = c.func
-        d = self.tr.dotted(self.mod, f)
-        # 1. generator objects
-        kind = self.ctor_kind(c)
-        if kind is not None:
-            if kind == "local":
-                self.emit("seed", "local", c, extra=(ctx == "seedcond"))
-            return
+        # 0. the callee is computed: getattr(x, n)(...), table[k](...), f()(...), (a or b)(...)
+        if not isinstance(f, (ast.Name, ast.Attribute)):
+            return self.unknown(c, "the callee is the value of an expression (getattr / subscript / call result)")
+        # 1. methods of generator objects
         if isinstance(f, ast.Attribute):
             base = f.value
             if isinstance(base, ast.Name) and base.id in self.gens:
                 return self.emit("draw", self.gens[base.id], c)
             if isinstance(base, ast.Call) and self.ctor_kind(base) is not None:
                 return self.emit("draw", self.ctor_kind(base), c)
+        for t in self.targets_of(f):
+            self.apply(t, c, ctx)
+
+    def apply(self, t, c, ctx):
+        k = t[0]
+        if k == "dotted":
+            kind = self._ctor_kind_d(c, t[1])
+            if kind is not None:                  # creation of a generator object
+                if kind == "local":
+                    self.emit("seed", "local", c, extra=(ctx == "seedcond"))
+                return
+            return self.dotted_call(t[1], c, ctx)
+        if k == "pkgfn":
+            return self.pkg_call(self.tr.by_qual[t[1]], c, ctx)
+        if k in ("pkgclass", "pkgclassfam"):
+            for name in (self.tr.family(t[1]) if k == "pkgclassfam" else [t[1]]):
+                self.pkg_ctor(name, c, ctx)
+            return
+        if k == "localfn":
+            return self.walk_local(t[1], ctx)
+        if k in ("builtin", "const", "walked"):
+            return
+        if k == "method":
+            return self.method_call(c, ctx)
+        if k == "param":
+            return self.emit("callparam", t[1], c)       # resolved by the caller that inlines this body
+        if k == "pkginstance":
+            for name in self.tr.family(t[1]):
+                for meth in [m for m in self.tr.methods.get("__call__", []) if m.cls == name]:
+                    self.pkg_call(meth, c, ctx, method=True)
+            return
+        self.unknown(c, t[1] or "what the callee holds is not known")
+
+    def apply_deferred(self, t, c, txt):
+        """a helper inlined at call `c` calls one of its parameters (at `txt`), which stands for target `t`.  The arguments
+        of that inner call are out of sight here, so anything that can draw is `draw unknown`."""
+        k = t[0]
+        if k == "param":
+            return self.sink.append(("callparam", t[1], f"{txt}  <- {self.where(c)}"))
+        if k in ("builtin", "const", "walked"):
+            return
+        why = None
+        if k in ("opaque", "method", "localfn"):
+            why = "the callable passed to it is not known"
+        elif k in ("dotted", "pkgfn"):
+            why = self.can_draw(t)
+            if why is None and k == "dotted":
+                d = t[1]
+                if d == PKG or d.startswith(PKG + "."):
+                    if not self.tr.pkg_funcs_dotted(d):
+                        fake = ast.copy_location(ast.Call(func=ast.Name(id="_", ctx=ast.Load()), args=[], keywords=[]), c)
+                        if not self.pkg_ctor(d.rsplit(".", 1)[-1], fake, "other"):
+                            why = f"`{d}` is not a function or class the package defines"
+                elif d in LIB or d.startswith(LIB_PREFIXES):
+                    if (LIB[d] if d in LIB else self.introspect(d))[0]:
+                        why = f"`{d}` takes a seed-like parameter"
+                elif not d.startswith(PURE_NAMESPACES):
+                    why = f"`{d}`: no table classifies this module"
+        elif k in ("pkgclass", "pkgclassfam", "pkginstance"):
+            fake = ast.copy_location(ast.Call(func=ast.Name(id="_", ctx=ast.Load()), args=[], keywords=[]), c)
+            return self.apply(t, fake, "other")
+        if why:
+            self.sink.append(("draw", "unknown", f"{txt}  <- {self.where(c)}"))
+            self.tr.notes.append(f"{self.where(c)}: a helper inlined here calls its parameter ({txt}) -> draw unknown: {why}")
+
+    def dotted_call(self, d, c, ctx):
+        """the callee resolves through the imports to the dotted name `d`"""
+        f = c.func
         # 2. stdlib random / numpy.random module level
-        if d is not None and d.startswith("random."):
+        if d.startswith("random."):
             name = d[len("random."):]
             if name == "seed":
                 return self.do_seed("pyGlobal", c, ctx)
             if name in PY_NEUTRAL:
                 return
             return self.emit("draw", "pyGlobal" if name in PY_DRAWS else "unknown", c)
-        if d is not None and d.startswith("numpy.random."):
+        if d.startswith("numpy.random."):
             name = d[len("numpy.random."):]
             if name == "seed":
                 return self.do_seed("npGlobal", c, ctx)
@@ -495,40 +1067,73 @@ class _Walker:
         if d in ENTROPY_CALLS:
             return self.emit("draw", "osEntropy", c)
         # 3. libraries
-        if d is not None and (d in LIB or d.startswith(LIB_PREFIXES)):
+        if d in LIB or d.startswith(LIB_PREFIXES):
             return self.lib_call(d, c)
-        # 4. package functions
-        cands = self.tr.pkg_funcs(self.mod, c)
-        if cands:
-            for callee in cands:
-                self.pkg_call(callee, c, ctx)
+        # 4. the package itself
+        if d == PKG or d.startswith(PKG + "."):
+            cands = self.tr.pkg_funcs_dotted(d)
+            if cands:
+                for callee in cands:
+                    self.pkg_call(callee, c, ctx)
+                return
+            if self.pkg_ctor(d.rsplit(".", 1)[-1], c, ctx):
+                return
+            if isinstance(f, ast.Attribute) and self.tr.methods.get(f.attr):     # Hypergraph.method(H, ...) and the like
+                for meth in self.tr.methods[f.attr]:
+                    self.pkg_call(meth, c, ctx, method=True, explicit_self=True)
+                return
+            return self.unknown(c, f"`{d}` is not a function or class the package defines")
+        if d.startswith(PURE_NAMESPACES):
             return
-        if isinstance(f, ast.Name) and f.id not in self.mod.alias:
-            for m, cls in self.tr.classes.get(f.id, []):      # constructor of a package class
-                for init in [x for x in self.tr.methods.get("__init__", []) if x.cls == f.id and x.mod is m]:
-                    self.pkg_call(init, c, ctx, method=True)
+        self.unknown(c, f"`{d}`: no table classifies this module")
+
+    def pkg_ctor(self, name, c, ctx):
+        """constructor of a package class: its __init__ (when the class defines one) is inlined"""
+        found = False
+        for m, cls in self.tr.classes.get(name, []):
+            found = True
+            for init in [x for x in self.tr.methods.get("__init__", []) if x.cls == cls.name and x.mod is m]:
+                self.pkg_call(init, c, ctx, method=True)
+        return found
+
+    def method_call(self, c, ctx):
+        """`recv.name(...)` where the type of `recv` is not known: resolved by name over the classes of the package"""
+        f = c.func
+        chain, b = [], f.value
+        while isinstance(b, ast.Attribute):
+            chain.append(b.attr)
+            b = b.value
+        if isinstance(b, ast.Name):
+            chain.append(b.id)
+        if any(x in RNGISH_NAMES or x.endswith("_rng") for x in chain):
+            return self.unknown(c, "method of an RNG-looking object that is not tracked")
+        if f.attr in RNG_METHOD_NAMES:
+            return self.unknown(c, f"`.{f.attr}()` on a receiver of unknown type is what generator objects offer")
+        if f.attr == "__class__":                 # type(x)(...) spelled x.__class__(...): a constructor of the package
+            recv_is_self = isinstance(f.value, ast.Name) and f.value.id in ("self", "cls") and self.fn.cls
+            names = self.tr.family(self.fn.cls) if recv_is_self else sorted(self.tr.classes)
+            for name in names:
+                self.pkg_ctor(name, c, ctx)
             return
-        if isinstance(f, ast.Name) and d is not None and (d == PKG or d.startswith(PKG + ".")):
-            for m, cls in self.tr.classes.get(d.rsplit(".", 1)[1], []):
-                for init in [x for x in self.tr.methods.get("__init__", []) if x.cls == cls.name and x.mod is m]:
-                    self.pkg_call(init, c, ctx, method=True)
+        meths = self.tr.methods.get(f.attr, [])
+        attrs = self.tr.class_attrs.get(f.attr, [])
+        if meths or attrs:
+            for meth in meths:
+                self.pkg_call(meth, c, ctx, method=True)
+            for t in attrs:                       # `self._node_dict_factory()`: a class-level alias
+                if t[0] == "method":
+                    self.unknown(c, f"class attribute `{f.attr}` holds a value that is not followed")
+                else:
+                    self.apply(t, c, ctx)
             return
-        # 5. methods, resolved by name over the classes of the package; rng-looking receivers
-        if isinstance(f, ast.Attribute):
-            chain, b = [], f.value
-            while isinstance(b, ast.Attribute):
-                chain.append(b.attr)
-                b = b.value
-            if isinstance(b, ast.Name):
-                chain.append(b.id)
-            if d is None and any(x in RNGISH_NAMES or x.endswith("_rng") for x in chain):
-                return self.emit("draw", "unknown", c)
-            if d is None or d.startswith(PKG + "."):
-                for meth in self.tr.methods.get(f.attr, []):
-                    self.pkg_call(meth, c, ctx, method=True)
+        if f.attr in DET_METHODS:
+            return
+        self.unknown(c, f"`.{f.attr}()`: receiver of unknown type, no class of the package defines it, not on the whitelist")
 
     def lib_call(self, d, c):
         kws = {k.arg: k.value for k in c.keywords if k.arg}
+        for key, v in self.star_kwargs(c).items():
+            kws.setdefault(key, v)                       # `**kwargs` known to carry the seed (see `dict_store`)
         if d in LIB:
             params, default = LIB[d]
         else:
@@ -591,14 +1196,35 @@ class _Walker:
         return {names[i]: a for i, a in enumerate(c.args) if i < len(names) and names[i] in params
                 and not isinstance(a, ast.Starred)}
 
-    def pkg_call(self, callee, c, ctx, method=False):
-        params = callee.params[1:] if (method and callee.params[:1] in (["self"], ["cls"])) else callee.params
+    def binding(self, e):
+        """targets handed to an inlined helper for one argument expression"""
+        if isinstance(e, ast.Lambda):
+            return [("walked",)]              # `expr` has walked its body where it is written
+        if isinstance(e, ast.Constant):
+            return [("const",)]
+        if isinstance(e, (ast.Name, ast.Attribute)) and _is_name_chain(e):
+            out = []
+            for t in self.targets_of(e):
+                t = ("walked",) if t[0] == "localfn" else (OPAQUE if t[0] in ("opaque", "method") else t)
+                if t not in out:
+                    out.append(t)
+            return out
+        if isinstance(e, ast.Call) and isinstance(e.func, ast.Name) \
+                and any(t[0] in ("pkgclass", "pkgclassfam") for t in self.targets_of(e.func)):
+            return [("pkginstance", t[1]) for t in self.targets_of(e.func) if t[0] in ("pkgclass", "pkgclassfam")]
+        return [OPAQUE]
+
+    def pkg_call(self, callee, c, ctx, method=False, explicit_self=False):
+        skip_self = method and not explicit_self and not callee.is_static and callee.params[:1] in (["self"], ["cls"])
+        params = callee.params[1:] if skip_self else callee.params
         bound = {}
         for i, a in enumerate(c.args):
             if isinstance(a, ast.Starred):
                 break
             if i < len(params):
                 bound[params[i]] = a
+        for key, v in self.star_kwargs(c).items():
+            bound.setdefault(key, v)
         for k in c.keywords:
             if k.arg:
                 bound[k.arg] = k.value
@@ -608,11 +1234,34 @@ class _Walker:
                 self.emit("callUnseeded", callee.key, c)
             else:
                 self.emit("forwardSeed", callee.key, c)
+                if not (_mentions(v, self.derived) or isinstance(v, ast.Constant)):
+                    self.unknown(c, "the seed passed on is not a function of this function's seed")
             return
         dp = {p for p, v in bound.items() if _mentions(v, self.derived)}
-        inner_ctx = ctx
-        for e in self.tr.effects(callee, dp, inner_ctx, self.stack):
-            self.sink.append(e[:-1] + (f"{e[-1]}  <- {self.where(c)}",))
+        star = any(isinstance(a, ast.Starred) for a in c.args) or any(k.arg is None for k in c.keywords)
+        for e in self.tr.effects(callee, dp, ctx, self.stack):
+            if e[0] != "callparam":
+                self.sink.append(e[:-1] + (f"{e[-1]}  <- {self.where(c)}",))
+                continue
+            # the helper calls its parameter p: what did this call site pass for it?
+            p, txt = e[1], e[-1]
+            if p in bound:
+                ts = self.binding(bound[p])
+            elif star:
+                ts = [OPAQUE]          # *args / **kwargs may bind it to anything
+            elif p in callee.defaults():
+                d = callee.defaults()[p]
+                if isinstance(d, ast.Lambda):
+                    for x in self.tr.lambda_effects(callee, d, self.stack):
+                        self.sink.append(x[:-1] + (f"{x[-1]}  <- {txt}  <- {self.where(c)}",))
+                    continue
+                ts = self.tr.module_targets(callee.mod, d)
+            elif callee.cls and callee.params[:1] == [p] and callee.is_classmethod:
+                ts = [("pkgclassfam", callee.cls)]
+            else:
+                ts = [OPAQUE]
+            for t in ts:
+                self.apply_deferred(t, c, txt)
 
 
 # ----------------------------------------------------------------------------------------------------------
@@ -629,7 +1278,134 @@ def _src(s):
     return "«local»" if s == "local" else s
 
 
-def render(tab, notes):
+# ----------------------------------------------------------------------------------------------------------
+# Independent view of "the public functions with a `seed` parameter": import the package, ask inspect.signature.
+# Nothing here looks at the AST or at the table.
+
+class TreeMismatch(Exception):
+    """`import xgi` is not the tree the translator reads"""
+
+
+def _same_tree(repo):
+    import xgi
+    return os.path.realpath(os.path.dirname(xgi.__file__)) == os.path.realpath(os.path.join(repo, PKG))
+
+
+def _origin(o):
+    """(module name, plain name or None) of a callable, looking through functools.partial and wrappers"""
+    import functools
+    import inspect
+    seen = 0
+    while isinstance(o, (functools.partial, functools.partialmethod)) and seen < 10:
+        o, seen = o.func, seen + 1
+    try:
+        o = inspect.unwrap(o)
+    except Exception:  # noqa
+        pass
+    return getattr(o, "__module__", None) or "", getattr(o, "__name__", None)
+
+
+def introspect_here():
+    """{name: callable} of every public callable of the imported package that has a parameter `seed`:
+    attributes of `xgi` and of every module `xgi.*` none of whose path components starts with `_` (this covers
+    `xgi.__all__` and `dir(xgi)`), plus public methods (and `__init__`) of the public classes found that way.
+    The name is the function's own `__name__` when the defining module exposes it under that name (this is the name of the
+    `def` the AST translator sees), else the attribute name it was found under (functools.partial objects, functions made
+    by factories); when two different callables share a name both get their module-qualified name.
+    Returns (found, private, errors): `private` = seeded functions met under an underscore name (evidence only)."""
+    import importlib
+    import inspect
+    import pkgutil
+    import xgi
+    errors, mods = [], [xgi]
+    for mi in pkgutil.walk_packages(xgi.__path__, PKG + "."):
+        if any(part.startswith("_") for part in mi.name.split(".")):
+            continue
+        try:
+            mods.append(importlib.import_module(mi.name))
+        except Exception as e:  # noqa
+            errors.append(f"{mi.name}: {type(e).__name__}: {e}")
+
+    def has_seed(o):
+        try:
+            return "seed" in inspect.signature(o).parameters
+        except (TypeError, ValueError):
+            return False
+
+    recs, private = {}, {}          # id(callable) -> (name, qualified, callable)
+    for m in mods:
+        for attr, o in list(vars(m).items()):
+            if inspect.ismodule(o):
+                continue
+            if inspect.isclass(o):
+                if attr.startswith("_") or not (getattr(o, "__module__", "") or "").startswith(PKG):
+                    continue
+                for a, v in list(vars(o).items()):
+                    f = v.__func__ if isinstance(v, (staticmethod, classmethod)) else v
+                    if (a == "__init__" or not a.startswith("_")) and inspect.isfunction(f) and has_seed(f):
+                        recs.setdefault(id(f), (f"{o.__name__}.{a}", f"{o.__module__}.{o.__name__}.{a}", getattr(o, a)))
+                continue
+            if not callable(o) or not has_seed(o):
+                continue
+            omod, oname = _origin(o)
+            if not (omod == PKG or omod.startswith(PKG + ".")):
+                continue
+            if attr.startswith("_"):
+                private.setdefault(id(o), (attr, f"{m.__name__}.{attr}", o))
+                continue
+            own = oname is not None and getattr(sys.modules.get(getattr(o, "__module__", None) or ""), oname, None) is o
+            if own and oname.startswith("_"):
+                own = False                       # a private def exported under a public name: known by the public one
+            name = oname if own else attr
+            recs.setdefault(id(o), (name, f"{getattr(o, '__module__', None) if own else m.__name__}.{name}", o))
+    by_name = {}
+    for name, qual, o in recs.values():
+        by_name.setdefault(name, []).append((qual, o))
+    found = {}
+    for name, lst in by_name.items():
+        if len(lst) == 1:
+            found[name] = lst[0][1]
+        else:
+            for qual, o in lst:
+                found[qual] = o
+    return found, {n: o for n, _, o in private.values()}, errors
+
+
+def introspect_public(repo):
+    """sorted names of the public seeded callables of the package in tree `repo` (see `introspect_here`), and how they
+    were obtained.  In-process when `import xgi` is that tree (./check puts XGI_REPO first on PYTHONPATH); otherwise in a
+    fresh interpreter with PYTHONPATH=<repo> - never mixing the AST of one tree with the import of another."""
+    import json
+    import subprocess
+    repo = os.path.realpath(repo)
+    try:
+        here = _same_tree(repo)
+    except Exception:  # noqa
+        here = False
+    if here:
+        found, _, errors = introspect_here()
+        return sorted(found), f"import xgi (in process) from {repo}", errors
+    code = ("import json, sys; sys.path.insert(0, %r); from harness import c17_translate as T; "
+            "ok = T._same_tree(%r); f, p, e = T.introspect_here() if ok else ({}, {}, []); "
+            "print('C17-INTROSPECT ' + json.dumps([ok, sorted(f), e]))" % (VERIF, repo))
+    env = dict(os.environ, PYTHONPATH=repo)
+    env.pop("XGI_REPO", None)
+    p = subprocess.run([sys.executable, "-c", code], cwd="/", env=env, capture_output=True, text=True, timeout=300)
+    line = next((l for l in p.stdout.split("\n") if l.startswith("C17-INTROSPECT ")), None)
+    if line is None:
+        raise TreeMismatch(f"cannot import xgi from {repo}: {p.stderr.strip()[-400:]}")
+    ok, names, errors = json.loads(line[len("C17-INTROSPECT "):])
+    if not ok:
+        raise TreeMismatch(f"`import xgi` with PYTHONPATH={repo} does not resolve to {repo}/xgi; refusing to pair the AST of "
+                           "one tree with the import of another")
+    return names, f"import xgi (fresh interpreter, PYTHONPATH={repo})", errors
+
+
+def _lean_str(s):
+    return '"' + s.replace("\\", "\\\\").replace('"', '\\"') + '"'
+
+
+def render(tab, notes, introspected=None):
     L = ["/-", "  GENERATED by harness/c17_translate.py from the current Python source of xgi - do not edit.",
          "  Per function with a `seed` parameter: the ordered RNG effects of a call with a concrete seed.", "-/",
          "import XgiModel.C17.Rng", "", "namespace Xgi.C17.SeedTable", "open Xgi.C17", ""]
@@ -645,8 +1421,15 @@ def render(tab, notes):
         L.append(f"  ]){',' if i < len(tab) - 1 else ''}")
     L.append("]")
     L.append("")
-    L.append("/-- the public functions among them (what C17 is stated for; the others are reached through calls) -/")
+    L.append("/-- the entries of `fns` that the AST scan itself regards as public.  Rendered from the same table as `fns`: used by")
+    L.append("    no theorem (anything said about it would hold by construction); the driver reports it for comparison. -/")
     L.append("def «public» : List String := [" + ", ".join(f'"{e["key"]}"' for e in tab if e["public"]) + "]")
+    L.append("")
+    L.append("/-- NOT derived from `fns`, nor from the AST: obtained by importing the package from the same tree and listing, with")
+    L.append("    `inspect.signature`, every public callable that has a parameter `seed` - attributes of `xgi` and of every public")
+    L.append("    module `xgi.*` (hence all of `xgi.__all__` / `dir(xgi)`), and public methods of public classes.")
+    L.append("    The import is checked to resolve to the very tree the table was translated from. -/")
+    L.append("def introspected : List String := [" + ", ".join(_lean_str(n) for n in (introspected or [])) + "]")
     L.append("")
     if notes:
         L.append("/- translator notes:")
@@ -656,11 +1439,16 @@ def render(tab, notes):
     return "\n".join(L) + "\n"
 
 
+LAST = {}       # what the most recent `translate` produced (the harness reads it after build_and_audit ran it under the lock)
+
+
 def translate(repo=None, write=True):
-    """returns (table, notes, changed)"""
+    """returns (table, notes, changed); details of the run (introspected names ...) in `LAST`"""
     tr = Translator(repo)
     tab = tr.table()
-    text = render(tab, sorted(set(tr.notes)))
+    names, how, errors = introspect_public(tr.repo)
+    notes = sorted(set(tr.notes)) + [f"introspection: module not importable: {e}" for e in errors]
+    text = render(tab, notes, introspected=names)
     changed = False
     if write:
         os.makedirs(os.path.dirname(OUT_FILE), exist_ok=True)
@@ -670,7 +1458,9 @@ def translate(repo=None, write=True):
                 f.write(text)
             os.replace(tmp, OUT_FILE)
             changed = True
-    return tab, sorted(set(tr.notes)), changed
+    LAST.clear()
+    LAST.update(table=tab, notes=notes, changed=changed, introspected=names, how=how, repo=tr.repo, import_errors=errors)
+    return tab, notes, changed
 
 
 if __name__ == "__main__":
@@ -681,4 +1471,5 @@ if __name__ == "__main__":
             print("      ", lean_eff(x), "   --", x[-1])
     for n in notes:
         print("note:", n)
+    print("introspected:", LAST["introspected"], "via", LAST["how"])
     print("changed:", changed)
